@@ -653,3 +653,25 @@ def deepest_accepted(enc, lo=8, hi=4000):
 def probe_depths(lo):
     return [d for d in sorted({lo - 12, lo - 30, lo * 9 // 10, lo * 3 // 4,
                                lo // 2}) if d >= 8]
+
+
+def handle_failed_decode(exc):
+    """What an application's error handler does with the exception of a
+    failed decode: log it, and look at whatever half-decoded frame object it
+    carries (print it, iterate it, turn it into a dict, ask its length).
+    Outcomes are ignored - the classes must be what they were afterwards."""
+    if exc is None:
+        return 0
+    n = 0
+    for fn in (repr, str):
+        call(fn, exc)
+    for a in getattr(exc, 'args', ()):
+        if hasattr(type(a), '__slots__') or hasattr(a, 'attributes'):
+            for fn in (repr, str, list, dict, len, iter,
+                       lambda x: [k for k in x],
+                       lambda x: {k: v for k, v in x},
+                       lambda x: x.attributes(), lambda x: list(x)[-1:],
+                       lambda x: '%r %s' % (x, x)):
+                call(fn, a)
+                n += 1
+    return n
